@@ -12,6 +12,8 @@ package main
 //                              partial aggregation vs the Lean model
 //   conc  (S, oracle)          real meta.Lister / meta.Slicer pulled by G goroutines:
 //                              exactly-once, per-goroutine order, same partitions
+//   sched (S + T2)             the real scatter under scripted (adversarial, reproducible)
+//                              assignments of objects to legs: gating storage engine (sched.go)
 
 import (
 	"encoding/json"
@@ -43,9 +45,19 @@ func buildPool(spec *poolSpec) (*TLake, string, ksuid.KSUID, error) {
 	if err != nil {
 		return nil, "", ksuid.Nil, err
 	}
+	name, id, err := buildPoolOn(l, spec)
+	if err != nil {
+		l.Close()
+		return nil, "", ksuid.Nil, err
+	}
+	return l, name, id, nil
+}
+
+// buildPoolOn creates the pool of the spec in the given lake.
+func buildPoolOn(l *TLake, spec *poolSpec) (string, ksuid.KSUID, error) {
 	name := newPoolName()
 	var id ksuid.KSUID
-	err, _ = Protect(func() error {
+	err, _ := Protect(func() error {
 		var err error
 		id, err = l.CreatePool(name, spec.Key, spec.Desc, 0, 1<<30)
 		if err != nil {
@@ -58,11 +70,7 @@ func buildPool(spec *poolSpec) (*TLake, string, ksuid.KSUID, error) {
 		}
 		return nil
 	})
-	if err != nil {
-		l.Close()
-		return nil, "", ksuid.Nil, err
-	}
-	return l, name, id, nil
+	return name, id, err
 }
 
 type refRes struct {
@@ -542,17 +550,18 @@ func run(c *Ctx) {
 		"key classes int, float(n/4), int+float+uint64 representations of equal numbers, string, int+null/missing, mixed (numbers<strings<null/missing); every record has unique id, group g (<=4 values, sometimes null/missing, str/int/mixed), exactly summable v (small ints or n/8), bool b, string s; " +
 		"programs from ~55 template classes (filters on v/key/g, cut/drop/put/rename keeping or destroying the key, head/tail N in {0,1,2,3,5,9,50,>pool}, sorts, uniq, fuse, yield key, aggregations with and without keys incl. the pool key, where-clauses, two-stage) run at parallelism 1 and {2,3,8,16} under GOMAXPROCS {1,2,16}; " +
 		"ordered programs are compared as sequences modulo ties of the order key, head/tail against the full parallelism-1 result, others as multisets (collect arrays sorted); distinct = (key class, order, key path, shape, program class, parallelism). " +
-		"meta: real :objects/:partitions vs model lister/slice/span, model scatter+merge and partial sums under random schedules vs real results at parallelism n. conc: real Lister/Slicer pulled by 2..16 goroutines")
+		"meta: real :objects/:partitions vs model lister/slice/span, model scatter+merge and partial sums under random schedules vs real results at parallelism n. conc: real Lister/Slicer pulled by 2..16 goroutines. " +
+		"sched: the lake on a gating storage.Engine; scripts (hold-first, reverse, evens-then-odds, swap-pairs, hold-every-pth, hold-first-half, random) fix the order in which data-object opens may complete, forcing the assignment of objects/partitions to scatter legs; result vs parallelism 1, exactly-once opens, per-leg lister order, partitions unsplit, model scatter/partials under the realised assignment")
 	defer runtime.GOMAXPROCS(runtime.GOMAXPROCS(0))
 
 	if c.Replay != nil {
-		if !replayPar(c, c.Replay) && !replayMeta(c, c.Replay) && !replayConc(c, c.Replay) {
+		if !replayPar(c, c.Replay) && !replayMeta(c, c.Replay) && !replayConc(c, c.Replay) && !replaySched(c, c.Replay) {
 			c.Note("replay not understood")
 		}
 		return
 	}
 	for _, raw := range c.CorpusCases() {
-		if replayPar(c, raw) || replayMeta(c, raw) {
+		if replayPar(c, raw) || replayMeta(c, raw) || replaySched(c, raw) {
 			c.Stat("corpus-cases")
 		}
 	}
@@ -580,5 +589,8 @@ func run(c *Ctx) {
 	}
 	if c.Want("conc") {
 		runConc(c)
+	}
+	if c.Want("sched") {
+		runSched(c)
 	}
 }
